@@ -347,31 +347,66 @@ func (s *c29Sess) check() {
 			s.violate("flush-without-fresh-cycle", fmt.Sprintf("waiting flush requested at #%d returned success at #%d but no scan of both endpoints began in between (alpha %v, beta %v)",
 				c.CallSeq, c.RetSeq, scanned["alpha"], scanned["beta"]))
 		}
-		// The cycle must be complete: nothing of it may still follow the return.
-		for _, it := range items {
-			if it.kind != "j" || it.seq < c.RetSeq {
-				continue
-			}
-			if it.j.Op == "Scan" && it.j.Phase == "begin" {
-				break // the next cycle
-			}
-			if it.j.Op == "Stage" || it.j.Op == "Supply" || it.j.Op == "Transition" {
-				s.violate("flush-before-cycle-complete", fmt.Sprintf("waiting flush returned success at #%d while its cycle was still working: %s", c.RetSeq, it.j))
-				break
-			}
-		}
 		// Its visible consequence: what alpha/a held when the flush was
-		// requested (or something newer) is now on beta.
-		// (Only while history is intact: after a reset, differing contents on
-		// the two sides are a conflict that two-way-safe rightly leaves alone.)
+		// requested (or something newer) is now on beta. This is demanded only
+		// when the cycle's own transition on beta reported no problem: a cycle
+		// whose transition was cancelled (pause during the cycle) or otherwise
+		// reported problems is still a complete cycle, and the statement asks for
+		// no more than that. (And only while history is intact: after a reset,
+		// differing contents on the two sides are a conflict that two-way-safe
+		// rightly leaves alone.)
 		resetBefore := false
 		for _, r := range s.resets {
 			if r.call.CallSeq < c.RetSeq {
 				resetBefore = true
 			}
 		}
-		if got := editNoOf(w.betaRoot); got < f.editNo && !resetBefore {
+		problems := false
+		for _, it := range items {
+			if it.kind == "j" && it.j.Side == "beta" && it.j.Op == "Transition" && it.j.Phase == "end" && it.seq > c.CallSeq && it.seq < c.RetSeq &&
+				!strings.HasPrefix(it.j.Arg, "problems=0 ") {
+				problems = true
+			}
+		}
+		if problems {
+			s.tags["flushW-success-with-transition-problems"] = true
+		}
+		if got := editNoOf(w.betaRoot); got < f.editNo && !resetBefore && !problems {
 			s.violate("flush-did-not-synchronize", fmt.Sprintf("waiting flush requested when alpha/a was edit %d returned success, but beta/a is edit %d", f.editNo, got))
+		}
+	}
+	// The cycle must be complete: nothing of the flush's own cycle may still
+	// follow the return. Judged only where the order is a real happens-before:
+	// the flush's cycle is the one whose scans began first after the request
+	// (entries of one synchronization loop are sequential, so the journal
+	// order delimits cycles soundly); one of its Stage/Supply/Transition
+	// entries recorded in a LATER harness step than the one in which the flush
+	// returned happened after the return. Inside one step the return mark and
+	// the loop's next entries are recorded by different goroutines and their
+	// sequence numbers race, so they are not compared.
+	for _, f := range s.flushes {
+		c := f.call
+		if !c.returned || c.Err != nil {
+			continue
+		}
+		scanBegins := 0
+		for _, it := range items {
+			if it.kind != "j" || it.seq < c.CallSeq {
+				continue
+			}
+			if it.j.Op == "Connect" && scanBegins > 0 {
+				break // a new loop: the flush's cycle is over
+			}
+			if it.j.Op == "Scan" && it.j.Phase == "begin" {
+				scanBegins++
+				if scanBegins > 2 {
+					break // the next cycle
+				}
+			}
+			if scanBegins > 0 && (it.j.Op == "Stage" || it.j.Op == "Supply" || it.j.Op == "Transition") && it.j.Epoch > c.RetEpoch {
+				s.violate("flush-before-cycle-complete", fmt.Sprintf("waiting flush returned success (#%d, step %d) while its cycle was still working: %s (step %d)", c.RetSeq, c.RetEpoch, it.j, it.j.Epoch))
+				break
+			}
 		}
 	}
 
@@ -498,6 +533,7 @@ func runC29(t *testing.T, base string, c c29Case, verbose func(string, ...any)) 
 				return
 			}
 			w.logf("--- event %s", ev)
+			w.nextEpoch()
 			s.do(ev)
 			synctest.Wait()
 			s.check()
@@ -519,10 +555,12 @@ func runC29(t *testing.T, base string, c c29Case, verbose func(string, ...any)) 
 		enabled = s.enabled()
 		// Closing: open the gate, let everything settle, let two polling
 		// intervals pass, and look again.
+		w.nextEpoch()
 		w.releaseGates()
 		synctest.Wait()
 		s.check()
 		if v.Viol == "" {
+			w.nextEpoch()
 			time.Sleep(3 * time.Second)
 			synctest.Wait()
 			s.check()
@@ -564,9 +602,9 @@ type c29Scenario struct{ Start, Gate, Arm string }
 func c29Scenarios(thorough bool) []c29Scenario {
 	// The scenario in which overlapping flushes meet a held flush-triggered
 	// cycle comes first so that a budget cut never loses it.
-	out := []c29Scenario{{"create", "alpha.Scan", "after-create"}, {"create", "", ""}, {"create", "beta.Transition", ""}, {"createP", "", ""}}
+	out := []c29Scenario{{"create", "alpha.Scan", "after-create"}, {"create", "beta.Transition", "after-create"}, {"create", "", ""}, {"create", "beta.Transition", ""}, {"createP", "", ""}}
 	if thorough {
-		out = append(out, c29Scenario{"create", "alpha.Scan", ""}, c29Scenario{"create", "beta.Transition", "after-create"},
+		out = append(out, c29Scenario{"create", "alpha.Scan", ""},
 			c29Scenario{"create", "beta.Transition", "event"},
 			c29Scenario{"createP", "beta.Transition", ""}, c29Scenario{"createP", "alpha.Scan", ""})
 	}
